@@ -20,9 +20,11 @@ type memConn struct {
 	onRead  func(n int, err error) // called under no lock, after the read result is decided
 	onWrite func(p []byte)
 	// write failure script: fail once wrote >= failAfter (if failAfter >= 0)
-	failAfter int
-	wrote     int
-	failErr   error
+	failAfter    int
+	wrote        int
+	failErr      error
+	failedWrites int  // writes that were answered with the failure
+	failFull     bool // a failing write takes all bytes and reports the error beside the full count
 	// when the read script is exhausted: block (default) or return idleErr
 	idleErr error
 }
@@ -102,12 +104,20 @@ func (m *memConn) Write(p []byte) (int, error) {
 		if k < 0 {
 			k = 0
 		}
-		m.writes = append(m.writes, append([]byte(nil), p[:k]...))
-		m.wrote += k
 		e := m.failErr
 		if e == nil {
 			e = errors.New("write: connection reset by peer")
 		}
+		m.failedWrites++
+		if m.failFull {
+			// the bytes are taken, the error is reported beside the full count (an io.Writer may do that)
+			m.writes = append(m.writes, append([]byte(nil), p...))
+			m.wrote += len(p)
+			m.mu.Unlock()
+			return len(p), e
+		}
+		m.writes = append(m.writes, append([]byte(nil), p[:k]...))
+		m.wrote += k
 		m.mu.Unlock()
 		return k, e
 	}
@@ -141,10 +151,10 @@ func (m *memConn) TakeWrites() [][]byte {
 
 // wirePacket is a TDS packet as parsed by the harness from the captured byte stream.
 type wirePacket struct {
-	Typ, Status  int
-	HLen         int
+	Typ, Status   int
+	HLen          int
 	Chan, Nr, Win int
-	Body         []byte
+	Body          []byte
 }
 
 // parsePackets parses a byte stream into consecutive packets by their header length.
